@@ -22,7 +22,7 @@ type c12 struct{}
 
 func init() { core.Register("C12", func() core.Scenario { return c12{} }) }
 
-var c12cats = []string{"reg", "reg", "reg", "unreg", "unreg", "generic", "generic", "method", "dir", "type", "mutate", "mutate", "unknown", "flood", "terminate", "nested"}
+var c12cats = []string{"reg", "reg", "reg", "unreg", "unreg", "generic", "generic", "method", "dir", "type", "mutate", "mutate", "unknown", "flood", "terminate", "nested", "reauth"}
 
 func (c12) Gen(r *rand.Rand, tier string, run int) *core.Case {
 	c := &core.Case{Prop: "C12", Params: map[string]int{}}
@@ -524,6 +524,26 @@ func c12frames(st *c12state, cat string, r *rand.Rand) [][]byte {
 	case "type":
 		s, o := target()
 		return [][]byte{ref.NewFrame(uint8(1+r.IntN(8)), s, o, pick32(0, 1, 2, 5, 6, ActEcho, ActNoarg, 101, 9999), id(), garbage()).Encode()}
+	case "reauth":
+		// the client authenticates again (good, bad or malformed credentials)
+		// and goes on talking without waiting for the verdict
+		var p []byte
+		switch r.IntN(4) {
+		case 0:
+			p = ref.AuthPayload("u", "p")
+		case 1:
+			p = ref.AuthPayload("u", "wrong")
+		case 2:
+			p = ref.AuthPayload("", "")
+		default:
+			p = garbage()
+		}
+		out := [][]byte{ref.NewFrame(uint8(pick32(ref.Call, ref.Call, ref.Post)), 0, 0, 8, id(), p).Encode()}
+		for i := 0; i < 1+r.IntN(3); i++ {
+			s, o := target()
+			out = append(out, ref.NewFrame(ref.Call, s, o, pick32(ActNoarg, 2, 101), id(), nil).Encode())
+		}
+		return out
 	case "unknown":
 		return [][]byte{ref.NewFrame(ref.Call, pick32(st.probeSvc, st.dirID, 0, 9, 0xffffffff), obj(), pick32(4, 9, 99, 9999, 0xffffffff), id(), garbage()).Encode()}
 	case "mutate":
